@@ -229,7 +229,12 @@ def mm(op, input, other):
             and p % 8 == 0
         ):
             # Use integer GEMM
-            out_data = torch._int_mm(input._data.contiguous(), other._data)
+            other_data = other._data
+            if other_data.stride() not in ((p, 1), (1, m)):
+                # torch._int_mm relies on the strides of its operands on CPU: it returns garbage when the rows
+                # of the second operand overlap (expanded Tensor). Only row-major or column-major data are safe.
+                other_data = other_data.contiguous()
+            out_data = torch._int_mm(input._data.contiguous(), other_data)
             # We must evaluate the output as float32 because the multiplication
             # of the int32 data by the scales might overflow
             fp32_output = (input._scale * other._scale).to(torch.float32) * out_data
